@@ -12,9 +12,14 @@ use quil_rs::waveform::builtin::{
     BoxcarKernel, BuiltinWaveform, BuiltinWaveformParameters, CommonBuiltinParameters, DragGaussian, ErfSquare, Flat,
     Gaussian, HermiteGaussian, IqSamplesOrPlaceholder, PartialBuiltinWaveformParameters, RaisedCosine,
 };
+use indexmap::IndexMap;
+use quil_rs::expression::Expression;
+use quil_rs::instruction::WaveformInvocation;
+use quil_rs::waveform::builtin::apply_phase_and_detuning;
 use quil_rs::waveform::sampling::{IqSamples, SamplingError};
-use quil_rs::waveform::{Concrete, Partial};
+use quil_rs::waveform::{Concrete, Partial, Syntactic, Waveform};
 use qvh::*;
+use std::collections::HashMap;
 
 #[derive(Clone, Copy, Debug, PartialEq)]
 enum Kind {
@@ -201,7 +206,219 @@ impl Req {
     }
 }
 
+impl Req {
+    /// sibling route 1: the trait implementation on the individual waveform struct (not the enum)
+    fn struct_concrete(&self, c: CommonBuiltinParameters<Concrete>) -> Result<IqSamples<Complex64>, SamplingError> {
+        let [a, t0, anh, alpha, coeff] = self.params;
+        let r = self.rate;
+        match self.kind {
+            Kind::Flat => Flat::<Concrete> { iq: self.iq }.iq_values_at_sample_rate(c, r),
+            Kind::Gaussian => Gaussian::<Concrete> { fwhm: a, t0 }.iq_values_at_sample_rate(c, r),
+            Kind::Drag => DragGaussian::<Concrete> { fwhm: a, t0, anh, alpha }.iq_values_at_sample_rate(c, r),
+            Kind::Erf => ErfSquare::<Concrete> { risetime: a, pad_left: self.padl, pad_right: self.padr }
+                .iq_values_at_sample_rate(c, r),
+            Kind::Hermite => HermiteGaussian::<Concrete> { fwhm: a, t0, anh, alpha, second_order_hrm_coeff: coeff }
+                .iq_values_at_sample_rate(c, r),
+            Kind::Boxcar => BuiltinWaveformParameters::iq_values_at_sample_rate(BoxcarKernel, c, r),
+            Kind::Rc => RaisedCosine::<Concrete> { rolloff: a, pad_left: self.padl, pad_right: self.padr }
+                .iq_values_at_sample_rate(c, r),
+        }
+    }
+
+    fn struct_partial(
+        &self,
+        mask: u32,
+        c: CommonBuiltinParameters<Partial<Concrete>>,
+    ) -> Result<IqSamplesOrPlaceholder, SamplingError> {
+        let [a, t0, anh, alpha, coeff] = self.params;
+        let f = |i: u32, x: f64| if mask & (1 << i) != 0 { None } else { Some(x) };
+        let r = self.rate;
+        match self.kind {
+            Kind::Flat => Flat::<Partial<Concrete>> { iq: if mask & 1 != 0 { None } else { Some(self.iq) } }
+                .partial_iq_values_at_sample_rate(c, r),
+            Kind::Gaussian => {
+                Gaussian::<Partial<Concrete>> { fwhm: f(0, a), t0: f(1, t0) }.partial_iq_values_at_sample_rate(c, r)
+            }
+            Kind::Drag => {
+                DragGaussian::<Partial<Concrete>> { fwhm: f(0, a), t0: f(1, t0), anh: f(2, anh), alpha: f(3, alpha) }
+                    .partial_iq_values_at_sample_rate(c, r)
+            }
+            Kind::Erf => ErfSquare::<Partial<Concrete>> { risetime: f(0, a), pad_left: self.padl, pad_right: self.padr }
+                .partial_iq_values_at_sample_rate(c, r),
+            Kind::Hermite => HermiteGaussian::<Partial<Concrete>> {
+                fwhm: f(0, a),
+                t0: f(1, t0),
+                anh: f(2, anh),
+                alpha: f(3, alpha),
+                second_order_hrm_coeff: f(4, coeff),
+            }
+            .partial_iq_values_at_sample_rate(c, r),
+            Kind::Boxcar => PartialBuiltinWaveformParameters::partial_iq_values_at_sample_rate(BoxcarKernel, c, r),
+            Kind::Rc => {
+                RaisedCosine::<Partial<Concrete>> { rolloff: f(0, a), pad_left: self.padl, pad_right: self.padr }
+                    .partial_iq_values_at_sample_rate(c, r)
+            }
+        }
+    }
+
+    fn quil_name(&self) -> &'static str {
+        match self.kind {
+            Kind::Flat => "flat",
+            Kind::Gaussian => "gaussian",
+            Kind::Drag => "drag_gaussian",
+            Kind::Erf => "erf_square",
+            Kind::Hermite => "hrm_gauss",
+            Kind::Boxcar => "boxcar_kernel",
+            Kind::Rc => "raised_cosine",
+        }
+    }
+
+    /// the waveform's own named parameters, `None` where `mask` says the field is missing
+    fn named_own(&self, mask: u32) -> Vec<(&'static str, Option<Complex64>)> {
+        let [a, t0, anh, alpha, coeff] = self.params;
+        let re = |x: f64| Some(Complex64::new(x, 0.0));
+        let f = |i: u32, x: f64| if mask & (1 << i) != 0 { None } else { re(x) };
+        match self.kind {
+            Kind::Flat => vec![("iq", if mask & 1 != 0 { None } else { Some(self.iq) })],
+            Kind::Gaussian => vec![("fwhm", f(0, a)), ("t0", f(1, t0))],
+            Kind::Drag => vec![("fwhm", f(0, a)), ("t0", f(1, t0)), ("anh", f(2, anh)), ("alpha", f(3, alpha))],
+            Kind::Erf => vec![("risetime", f(0, a)), ("pad_left", re(self.padl)), ("pad_right", re(self.padr))],
+            Kind::Hermite => vec![
+                ("fwhm", f(0, a)),
+                ("t0", f(1, t0)),
+                ("anh", f(2, anh)),
+                ("alpha", f(3, alpha)),
+                ("second_order_hrm_coeff", f(4, coeff)),
+            ],
+            Kind::Boxcar => vec![],
+            Kind::Rc => vec![("rolloff", f(0, a)), ("pad_left", re(self.padl)), ("pad_right", re(self.padr))],
+        }
+    }
+
+    /// named parameter map: own fields + duration + the optional common ones (absent ones are left out)
+    fn named(&self, mask: u32, scale: Option<Option<f64>>, phase: Option<Option<f64>>, det: Option<Option<f64>>)
+        -> IndexMap<String, Option<Complex64>> {
+        let mut m = IndexMap::new();
+        let re = |x: f64| Complex64::new(x, 0.0);
+        // insertion order deliberately not the extraction order
+        if let Some(d) = det {
+            m.insert("detuning".to_string(), d.map(re));
+        }
+        for (k, v) in self.named_own(mask) {
+            m.insert(k.to_string(), v);
+        }
+        if let Some(p) = phase {
+            m.insert("phase".to_string(), p.map(re));
+        }
+        m.insert("duration".to_string(), Some(re(self.dur)));
+        if let Some(sc) = scale {
+            m.insert("scale".to_string(), sc.map(re));
+        }
+        m
+    }
+
+    /// sibling route 2: `Waveform::<Concrete>::from_parameters` on a name → value map
+    fn via_parameters(&self, c: CommonBuiltinParameters<Concrete>) -> Sexp {
+        let map: IndexMap<String, Complex64> = self
+            .named(0, c.scale.map(Some), c.phase.map(|p| Some(p.0)), c.detuning.map(Some))
+            .into_iter()
+            .map(|(k, v)| (k, v.expect("known")))
+            .collect();
+        let w = Waveform::<Concrete>::from_parameters(
+            self.quil_name().to_string(),
+            map,
+            |z: Complex64| Ok::<f64, ()>(z.re),
+            |z: Complex64| Ok::<f64, ()>(z.re),
+            |z: Complex64| Ok::<Complex64, ()>(z),
+            Ok,
+        );
+        match w {
+            Ok(Waveform::Builtin { waveform, common_parameters }) => {
+                concrete_result(waveform.iq_values_at_sample_rate(common_parameters, self.rate))
+            }
+            Ok(Waveform::Custom { .. }) => atom("custom"),
+            Err(e) => tagged("paramerr", vec![st(format!("{e:?}"))]),
+        }
+    }
+
+    /// sibling route 3: a Quil `WaveformInvocation` with literal expressions → `Waveform::<Syntactic>::new`
+    /// → `try_evaluate` → sample
+    fn via_invocation(&self, c: CommonBuiltinParameters<Concrete>) -> Sexp {
+        let params: IndexMap<String, Expression> = self
+            .named(0, c.scale.map(Some), c.phase.map(|p| Some(p.0)), c.detuning.map(Some))
+            .into_iter()
+            .map(|(k, v)| (k, Expression::Number(v.expect("known"))))
+            .collect();
+        let w = match Waveform::<Syntactic>::new(WaveformInvocation::new(self.quil_name().to_string(), params)) {
+            Ok(w) => w,
+            Err(e) => return tagged("invocationerr", vec![st(format!("{e} | {e:?}"))]),
+        };
+        let none: HashMap<String, Complex64> = HashMap::new();
+        let mem: HashMap<String, Vec<f64>> = HashMap::new();
+        let w = w.try_evaluate::<Concrete, _>(|e: Expression| e.to_real(), |e: Expression| e.evaluate(&none, &mem));
+        match w {
+            Ok(Waveform::Builtin { waveform, common_parameters }) => {
+                concrete_result(waveform.iq_values_at_sample_rate(common_parameters, self.rate))
+            }
+            Ok(Waveform::Custom { .. }) => atom("custom"),
+            Err(e) => tagged("evalerr", vec![st(format!("{e:?}"))]),
+        }
+    }
+
+    /// sibling route of `main`: `Waveform::<Partial<Concrete>>::from_parameters`
+    fn via_partial_parameters(&self) -> Sexp {
+        let map = self.named(self.mask, self.scale.partial(), self.phase.partial(), self.det.partial());
+        let w = Waveform::<Partial<Concrete>>::from_parameters(
+            self.quil_name().to_string(),
+            map,
+            |v: Option<Complex64>| v.map(|z| z.re).ok_or(()),
+            |v: Option<Complex64>| Ok::<Option<f64>, ()>(v.map(|z| z.re)),
+            |v: Option<Complex64>| Ok::<Option<Complex64>, ()>(v),
+            Ok,
+        );
+        match w {
+            Ok(Waveform::Builtin { waveform, common_parameters }) => {
+                partial_result(waveform.partial_iq_values_at_sample_rate(common_parameters, self.rate))
+            }
+            Ok(Waveform::Custom { .. }) => atom("custom"),
+            Err(e) => tagged("paramerr", vec![st(format!("{e:?}"))]),
+        }
+    }
+}
+
+/// `sample_count`, `get`, `get_ref`, `iter`, `into_iter`, `into_iq_values` must describe one sequence
+fn check_accessors<T: Clone + std::fmt::Debug>(s: &IqSamples<T>, eq: impl Fn(&T, &T) -> bool) {
+    let n = s.sample_count();
+    assert!(s.get(n).is_none() && s.get_ref(n).is_none() && s.get(n + 1).is_none(), "get past the end");
+    assert_eq!(s.iter().len(), n, "iter().len()");
+    assert_eq!((&s).into_iter().len(), n, "(&s).into_iter().len()");
+    if n > 0 {
+        assert!(s.get(0).is_some() && s.get_ref(n - 1).is_some(), "get inside");
+    }
+    if n <= 100_000 {
+        let v = s.clone().into_iq_values();
+        assert_eq!(v.len(), n, "into_iq_values().len()");
+        assert_eq!(s.iter().count(), n, "iter().count()");
+        let w: Vec<T> = s.clone().into_iter().collect();
+        assert_eq!(w.len(), n, "into_iter().count()");
+        for i in 0..n {
+            let g = s.get(i).expect("get");
+            assert!(eq(&g, &v[i]) && eq(s.get_ref(i).expect("get_ref"), &v[i]) && eq(&w[i], &v[i]), "element {i}");
+        }
+        for (i, x) in s.iter().enumerate() {
+            assert!(eq(x, &v[i]), "iter element {i}");
+        }
+    }
+}
+
+fn cbits(a: &Complex64, b: &Complex64) -> bool {
+    a.re.to_bits() == b.re.to_bits() && a.im.to_bits() == b.im.to_bits()
+}
+
 fn err_sexp(e: &SamplingError) -> Sexp {
+    // format every returned error: a panic in Display/Debug is a crash of the variant
+    let text = format!("{e} | {e:?} | {e:#}");
+    assert!(text.contains("sample rate"), "error text {text}");
     match e {
         SamplingError::SampleCountOutOfRange { .. } => tagged("err", vec![atom("range")]),
         SamplingError::MisalignedDuration { .. } => tagged("err", vec![atom("misaligned")]),
@@ -211,7 +428,8 @@ fn err_sexp(e: &SamplingError) -> Sexp {
 fn samples_sexp(s: &IqSamples<Complex64>) -> Sexp {
     match s {
         IqSamples::Flat { iq, sample_count } => {
-            tagged("s", vec![atom("flat"), nat(*sample_count as u64), f64bits(iq.re), f64bits(iq.im)])
+            assert_eq!(s.sample_count(), *sample_count);
+            tagged("s", vec![atom("flat"), nat(s.sample_count() as u64), f64bits(iq.re), f64bits(iq.im)])
         }
         IqSamples::Samples(v) => {
             let mut xs = vec![atom("vec")];
@@ -235,18 +453,23 @@ fn partial_result(r: Result<IqSamplesOrPlaceholder, SamplingError>) -> Sexp {
     match r {
         Err(e) => err_sexp(&e),
         Ok(IqSamplesOrPlaceholder::Placeholder(p)) => {
-            // the public length accessor must agree with the representation
-            assert_eq!(p.sample_count(), p.iter().count());
+            check_accessors(&p, |_, _| true);
             placeholder_sexp(&p)
         }
-        Ok(IqSamplesOrPlaceholder::Samples(s)) => samples_sexp(&s),
+        Ok(IqSamplesOrPlaceholder::Samples(s)) => {
+            check_accessors(&s, cbits);
+            samples_sexp(&s)
+        }
     }
 }
 
 fn concrete_result(r: Result<IqSamples<Complex64>, SamplingError>) -> Sexp {
     match r {
         Err(e) => err_sexp(&e),
-        Ok(s) => samples_sexp(&s),
+        Ok(s) => {
+            check_accessors(&s, cbits);
+            samples_sexp(&s)
+        }
     }
 }
 
@@ -274,15 +497,56 @@ fn run_case(ctx: &mut Ctx, q: Req) {
         let filled =
             guarded(|| partial_result(q.partial(0).partial_iq_values_at_sample_rate(q.common_filled_partial(), q.rate)));
         let direct = guarded(|| concrete_result(q.concrete().iq_values_at_sample_rate(q.common_filled(), q.rate)));
+        // sibling entry points: must return exactly what `direct` / `main` return
+        let sib_direct = vec![
+            guarded(|| concrete_result(q.struct_concrete(q.common_filled()))),
+            guarded(|| q.via_parameters(q.common_filled())),
+            guarded(|| q.via_invocation(q.common_filled())),
+            guarded(|| partial_result(q.struct_partial(0, q.common_filled_partial()))),
+        ];
+        let sib_main = vec![
+            guarded(|| partial_result(q.struct_partial(q.mask, q.common_partial()))),
+            guarded(|| q.via_partial_parameters()),
+        ];
+        // `CommonBuiltinParameters::resolve_with_sample_rate`
+        let explicit = guarded(|| match q.common_filled().resolve_with_sample_rate(q.rate) {
+            Ok(e) => tagged(
+                "ex",
+                vec![nat(e.sample_count as u64), f64bits(e.scale), f64bits(e.phase.0), f64bits(e.detuning)],
+            ),
+            Err(e) => err_sexp(&e),
+        });
         let skip = || atom("skip");
-        let (base, dbl, rot) = if q.light {
-            let base = guarded(|| {
-                concrete_result(q.concrete().iq_values_at_sample_rate(
+        let (base, dbl, rot, apd) = if q.light {
+            let base_r = std::panic::catch_unwind(std::panic::AssertUnwindSafe(|| {
+                q.concrete().iq_values_at_sample_rate(
                     CommonBuiltinParameters { duration: q.dur, scale: None, phase: None, detuning: None },
                     q.rate,
-                ))
-            });
+                )
+            }));
             let c = q.common_filled();
+            // the public slice function `apply_phase_and_detuning` applied to scale * envelope
+            let apd = match &base_r {
+                Ok(Ok(b)) => {
+                    let b = b.clone();
+                    guarded(move || {
+                        let sc = c.scale.unwrap_or(1.0);
+                        let mut v: Vec<Complex64> = b.into_iq_values().into_iter().map(|z| sc * z).collect();
+                        apply_phase_and_detuning(
+                            &mut v,
+                            Cycles(c.phase.map(|p| p.0).unwrap_or(0.0)),
+                            c.detuning.unwrap_or(0.0),
+                            q.rate,
+                        );
+                        samples_sexp(&IqSamples::Samples(v))
+                    })
+                }
+                _ => skip(),
+            };
+            let base = match base_r {
+                Ok(r) => guarded(|| concrete_result(r)),
+                Err(_) => tagged("crash", vec![]),
+            };
             let c_dbl = CommonBuiltinParameters::<Concrete> {
                 duration: c.duration,
                 scale: Some(2.0 * c.scale.unwrap_or(1.0)),
@@ -297,9 +561,9 @@ fn run_case(ctx: &mut Ctx, q: Req) {
             };
             let dbl = guarded(|| concrete_result(q.concrete().iq_values_at_sample_rate(c_dbl, q.rate)));
             let rot = guarded(|| concrete_result(q.concrete().iq_values_at_sample_rate(c_rot, q.rate)));
-            (base, dbl, rot)
+            (base, dbl, rot, apd)
         } else {
-            (skip(), skip(), skip())
+            (skip(), skip(), skip(), skip())
         };
         tagged(
             "out",
@@ -311,6 +575,10 @@ fn run_case(ctx: &mut Ctx, q: Req) {
                 tagged("base", vec![base]),
                 tagged("dbl", vec![dbl]),
                 tagged("rot", vec![rot]),
+                tagged("sibd", sib_direct),
+                tagged("sibm", sib_main),
+                tagged("explicit", vec![explicit]),
+                tagged("apd", vec![apd]),
             ],
         )
     });
@@ -416,6 +684,7 @@ fn gen_request(rng: &mut Rng, kind: Kind) -> Req {
     // target sample count
     let (n, huge) = match rng.below(40) {
         0 => (0.0, false),
+        2 | 3 if kind.padded() => (0.0, false),
         1 => (1.0, false),
         2..=29 => (rng.below(24) as f64 + 2.0, false),
         30..=34 => (rng.below(90) as f64 + 2.0, false),
@@ -451,8 +720,8 @@ fn gen_request(rng: &mut Rng, kind: Kind) -> Req {
     };
     let (padl, padr) = if kind.padded() {
         let p = |rng: &mut Rng| match rng.below(8) {
-            0..=2 => 0.0,
-            3 => (rng.below(6) as f64) / rate,
+            0 | 1 => 0.0,
+            2 | 3 => (rng.below(6) as f64) / rate,
             4 => exact_duration(rng.below(5) as f64 + dyadic_unit(rng, 6), rate),
             5 => -exact_duration(rng.below(3) as f64 + dyadic_unit(rng, 4), rate),
             6 => exact_duration(thr * dyadic_unit(rng, 6), rate),
@@ -553,9 +822,53 @@ fn corpus() -> Vec<Req> {
         }
         if kind.padded() {
             v.push(Req { padl: -3.0, padr: 1.0 / 1024.0, ..k.clone() });
+            // pulses that round to ZERO samples but have padding on both sides, on every path: concrete,
+            // scaled, zero scale, partial (unknown common parameter / missing field), detuned
+            for dur in [0.0, -0.0, 1.0 / 1024.0, -1.0 / 1024.0, f64::EPSILON] {
+                for (pl, pr) in [(2.5, 0.25), (0.0, 3.0), (1.0, 0.0), (1.0 / 1024.0, 1.0 / 1024.0)] {
+                    let z = Req { dur, padl: pl, padr: pr, ..k.clone() };
+                    v.push(z.clone());
+                    v.push(Req { scale: P::Known(2.0), phase: P::Known(0.25), ..z.clone() });
+                    v.push(Req { scale: P::Known(0.0), ..z.clone() });
+                    v.push(Req { scale: P::Known(0.0), mask: 1, ..z.clone() });
+                    v.push(Req { phase: P::Unknown, ..z.clone() });
+                    v.push(Req { scale: P::Unknown, det: P::Known(0.125), ..z.clone() });
+                    v.push(Req { mask: 1, ..z.clone() });
+                    v.push(Req { det: P::Known(0.25), scale: P::Known(-1.0), ..z.clone() });
+                }
+            }
+            // one-sample pulses with padding
+            v.push(Req { dur: 1.0, padl: 0.5, padr: 1.5, ..k.clone() });
             // usize overflow when the paddings are added (zero scale keeps it O(1)); see docs/C32.md
             v.push(Req { padl: 1e30, padr: 0.0, scale: P::Known(0.0), light: false, ..k.clone() });
             v.push(Req { padl: 1e30, padr: 0.0, scale: P::Known(0.0), mask: 1, light: false, ..k.clone() });
+        }
+    }
+    // boundary sample counts (O(1) variants only): powers of two and their neighbours, i32/u32 limits
+    for n in [
+        255.0f64, 256.0, 257.0, 65535.0, 65536.0, 65537.0, 16777215.0, 16777216.0, 16777217.0, 2147483647.0,
+        2147483648.0, 2147483649.0, 4294967293.0, 4294967294.0, 4294967295.0, 4294967296.0, 9007199254740992.0,
+    ] {
+        for (d, r) in [(n, 1.0), (n / 1024.0, 1024.0), (n * 8.0, 0.125)] {
+            for kind in [Kind::Flat, Kind::Boxcar] {
+                v.push(Req { kind, dur: d, rate: r, light: false, ..base.clone() });
+                v.push(Req { kind, dur: d, rate: r, scale: P::Known(-0.5), phase: P::Unknown, light: false, ..base.clone() });
+            }
+            for kind in [Kind::Gaussian, Kind::Erf, Kind::Rc] {
+                let pads = if kind.padded() { (3.0 / r, 2.0 / r) } else { (0.0, 0.0) };
+                v.push(Req { kind, dur: d, rate: r, padl: pads.0, padr: pads.1, scale: P::Known(0.0), light: false, ..base.clone() });
+                v.push(Req { kind, dur: d, rate: r, padl: pads.0, padr: pads.1, scale: P::Known(-0.0), mask: 1, light: false, ..base.clone() });
+            }
+        }
+    }
+    // exact special phases and detunings on every kind
+    for kind in KINDS {
+        let k = Req { kind, padl: if kind.padded() { 1.0 } else { 0.0 }, padr: if kind.padded() { 2.0 } else { 0.0 }, ..base.clone() };
+        for ph in [1.0, -1.0, 0.5, -0.5, 0.75, 2.0, 0.125, 1e-300, 16.25] {
+            v.push(Req { phase: P::Known(ph), scale: P::Known(1.25), ..k.clone() });
+        }
+        for dt in [-0.0, 1.0, 0.5, -0.25, 1.0 / 16.0, 1e-300] {
+            v.push(Req { det: P::Known(dt), phase: P::Known(0.125), ..k.clone() });
         }
     }
     v
